@@ -351,7 +351,7 @@ SPEC = {
     "id": "C19",
     "custom": custom,
     "gens": ["LayoutTables", "LayoutSites", "LayoutPurity"],
-    "lean_modules": ["RsslVerif.Thm.C19", "RsslVerif.Lemmas.LayoutContext"],
+    "lean_modules": ["RsslVerif.Thm.C19", "RsslVerif.Lemmas.LayoutContext", "RsslVerif.Lemmas.LayoutIgnored"],
     "theorems": [T + n for n in [
         "tables_pinned", "checked_sites", "get_matches_spec", "check_sound_agree", "check_sound",
         "reported_sizes_true", "rejected_differs", "check_complete", "check_total", "check_never_panics",
@@ -360,6 +360,7 @@ SPEC = {
         "collection_sites_covered", "diagnostic_pinned", "property_uses_collected_partial", "check_layout_sound_partial",
         "check_layout_reports_true_sizes",
         "layout_functions_are_pure", "layout_is_context_free", "check_layout_order_free",
+        "unmatched_sites_ignored",
         "check_sound_full", "reported_sizes_true_full", "check_never_panics_full", "no_layout_no_verdict",
         "no_layout_is_unknown", "check_complete_partial",
         "complete_fails_beyond_plain",
